@@ -121,10 +121,11 @@ func provenances() []provenance {
 
 func init() {
 	p := register(&Prop{ID: "C08", Level: "model_checking",
-		Rule: "explicit-state exploration of the real interpreter with value-semantics lockstep: (A) provenance x transformer grid: 19 ways of obtaining two stack items backed by the same bytes (direct push from the caller's script, DUP, 2DUP, 3DUP, OVER, 2OVER, PICK, TUCK, IFDUP, SPLIT left/right/at 0, alt-stack round trip, SWAP/ROT/2SWAP/ROLL of a copy, twin parked on the alt stack, CAT with empty) x EVERY opcode byte 0x4f..0xff as transformer x extra operand lists of length 0..2 over 4/6 edge operands x 6 (quick) / 16 (thorough) values V x both eras; (B) the mixed-alphabet program search of C05 (all programs to depth 3/4 from 79 seed stacks); (C) signature runs: valid and invalid P2PKH, P2PK and 2-of-3 multisig spends with real signatures, FORKID and legacy, both eras, with OP_CODESEPARATOR and signature-in-script variants (CHECKSIG and CHECKMULTISIG); (D) a transaction that does not re-parse (31-byte previous txid on another input), checked input last, CHECKSIG and CHECKMULTISIG with every hash-type byte x 4 flag words x 0..3 outputs: every output and the serialisation unchanged. Oracles on every execution: every item of both stacks equals the value-semantics reference after every instruction; the caller's locking and unlocking script buffers are byte-identical afterwards; tx.Bytes() is unchanged and the checked input records nothing but the spent output; with and without a debugger attached, and with the scripts handed over through WithScripts for a transaction whose checked input has no unlocking script yet. states = distinct snapshots, transitions = instructions compared",
+		Rule: "explicit-state exploration of the real interpreter with value-semantics lockstep: (A) provenance x transformer grid: 19 ways of obtaining two stack items backed by the same bytes (direct push from the caller's script, DUP, 2DUP, 3DUP, OVER, 2OVER, PICK, TUCK, IFDUP, SPLIT left/right/at 0, alt-stack round trip, SWAP/ROT/2SWAP/ROLL of a copy, twin parked on the alt stack, CAT with empty) x EVERY opcode byte 0x4f..0xff as transformer x extra operand lists of length 0..2 over 4/6 edge operands x 6 (quick) / 16 (thorough) values V x both eras; (B) the mixed-alphabet program search of C05 (all programs to depth 3/4 from 79 seed stacks) and its P2SH / limit templates; (C) signature runs: valid and invalid P2PKH, P2PK and 2-of-3 multisig spends with real signatures, FORKID and legacy, both eras, with OP_CODESEPARATOR and signature-in-script variants (CHECKSIG and CHECKMULTISIG); (D) a transaction that does not re-parse (31-byte previous txid on another input), checked input last, CHECKSIG and CHECKMULTISIG with every hash-type byte x 4 flag words x 0..3 outputs: every output and the serialisation unchanged. Oracles on every execution: every item of both stacks equals the value-semantics reference after every instruction; the caller's locking and unlocking script buffers are byte-identical afterwards; tx.Bytes() is unchanged and the checked input records nothing but the spent output; with and without a debugger attached, and with the scripts handed over through WithScripts for a transaction whose checked input has no unlocking script yet. states = distinct snapshots, transitions = instructions compared",
 	})
 	NewSpace(p, "exec", c08Check)
 	spOdd := NewSpace(p, "odd-tx", c08OddCheck)
+	NewSpace(p, "templates", c08Check)
 	p.Run = func(r *rep.Run, thorough bool) {
 		n, err := scriptref.Anchor(vectorsDir() + "/script_tests.json")
 		if err != nil {
@@ -190,6 +191,8 @@ func init() {
 		r.Sample("exec", scriptCase{Unlock: HB{0x02, 0x01, 0x80}, Lock: HB{0x76, 0x81}, Flags: 0})
 		// (B) mixed program search
 		c05BFSJob(r, p, "exec", chk, thorough, true)
+		// (B') P2SH / limit templates (pre-genesis P2SH keeps a saved copy of the first stack)
+		c05Templates(r, p, chk, thorough)
 		// (C) signature runs
 		sigCases := c08SigCases()
 		sp.Slice(r, sigCases)
